@@ -345,6 +345,26 @@ fn main() {
             doc: case["doc"].as_str().unwrap_or("").to_string(),
             expanded: case["expanded"].as_str().map(|s| s.to_string()),
         };
+        if let Some(stream) = case["stream"].as_str() {
+            let t = targets::by_name("Val").unwrap();
+            let docs = case["docs"].as_array().cloned().unwrap_or_default();
+            let bad = docs.iter().any(|d| d["expanded"].is_null());
+            run.eval();
+            let got = (t.from_multiple)(stream, opts(0));
+            if bad && got.is_ok() {
+                run.violation("C02:stream:alias-to-anchor-of-earlier-document-accepted", case.clone(), format!("from_multiple returned {}", show(&got)));
+            }
+            if !bad {
+                let exp: String = docs.iter().map(|d| format!("---\n{}", d["expanded"].as_str().unwrap_or(""))).collect();
+                let e = (t.from_multiple)(&exp, opts(0));
+                if !same_value_or_both_err(&got, &e) {
+                    run.violation("C02:stream:documents-differ-from-expansion", case.clone(), format!("{} | {}", show(&got), show(&e)));
+                }
+            }
+            run.nontrivial(1);
+            run.nontrivial(2);
+            run.finish(Finish::new("replay"));
+        }
         let tn = case["target"].as_str().unwrap_or("Val").to_string();
         let ov = case["opts"].as_u64().unwrap_or(0) as usize;
         let tn_static: &'static str = targets::by_name(&tn).map(|t| t.name).unwrap_or("Val");
@@ -445,6 +465,122 @@ fn main() {
             if i % 4999 == 0 {
                 run.sample(|| json!({"doc": c.doc, "expanded": c.expanded}));
             }
+        }
+    });
+
+    // ---- streams: anchors are per document. An alias whose name is defined only in an EARLIER
+    // document of the stream has "no earlier anchor of that name in the same document" and must
+    // fail in its document; documents that resolve on their own must equal their expansion.
+    let n_streams = tier.pick(40_000, 400_000);
+    par_range(n_streams, |i| {
+        let mut rng = Rng::stream(run.seed ^ 0x5712_ea35, i as u64);
+        let k = rng.range(2, 5);
+        let ro = RenderOpts::new();
+        let mut docs: Vec<Case> = Vec::new();
+        for _ in 0..k {
+            // small documents so that names collide across documents (a..d pool)
+            let t = if rng.chance(1, 3) {
+                // a document that only defines anchors / a document that only uses aliases
+                if rng.bool() {
+                    Node::map(vec![(Node::plain("k1"), Node::plain("v").with_anchor(*rng.pick(&["a", "b", "c", "d"])))])
+                } else {
+                    Node::map(vec![(Node::plain("k1"), Node::alias(*rng.pick(&["a", "b", "c", "d"])))])
+                }
+            } else {
+                random_decorated(&mut rng)
+            };
+            match build_case(&run, &t, false, &ro) {
+                Some(c) => docs.push(c),
+                None => return,
+            }
+        }
+        let stream: String = docs.iter().map(|c| format!("---\n{}", c.doc)).collect();
+        let first_bad = docs.iter().position(|c| c.expanded.is_none());
+        let expanded_prefix: String = docs
+            .iter()
+            .take(first_bad.unwrap_or(docs.len()))
+            .map(|c| format!("---\n{}", c.expanded.as_ref().unwrap()))
+            .collect();
+        let t = targets::by_name("Val").unwrap();
+        let case_json = || json!({"stream": stream, "docs": docs.iter().map(|c| json!({"doc": c.doc, "expanded": c.expanded})).collect::<Vec<_>>()});
+        run.eval();
+        // batch
+        let got = vcore::obs::catch(|| (t.from_multiple)(&stream, opts(0)));
+        let exp = vcore::obs::catch(|| (t.from_multiple)(&expanded_prefix, opts(0)));
+        let (got, exp) = match (got, exp) {
+            (Err(p), _) | (_, Err(p)) => {
+                run.violation(&format!("C02:panic:{}", vcore::obs::panic_site(&p)), case_json(), p);
+                return;
+            }
+            (Ok(g), Ok(e)) => (g, e),
+        };
+        match first_bad {
+            Some(j) => {
+                if let Ok(v) = &got {
+                    run.violation(
+                        "C02:stream:alias-to-anchor-of-earlier-document-accepted",
+                        case_json(),
+                        format!("document #{j} uses an alias whose name is not defined in that document, yet from_multiple returned Ok({v})"),
+                    );
+                    return;
+                }
+                run.count("stream_must_fail", 1);
+            }
+            None => {
+                if !same_value_or_both_err(&got, &exp) {
+                    run.violation(
+                        "C02:stream:documents-differ-from-expansion",
+                        case_json(),
+                        format!("stream: {} | expanded stream: {}", show(&got), show(&exp)),
+                    );
+                    return;
+                }
+                run.count("stream_all_resolve", 1);
+            }
+        }
+        // iterator: items before the first unresolvable document equal the expanded ones, and that
+        // document's item is an error (what follows an error is left to C11)
+        let items = vcore::obs::catch(|| (t.read_iter)(&mut std::io::Cursor::new(stream.as_bytes()), opts(0), k + 2));
+        let exp_items = vcore::obs::catch(|| (t.read_iter)(&mut std::io::Cursor::new(expanded_prefix.as_bytes()), opts(0), k + 2));
+        if let (Ok(items), Ok(exp_items)) = (items, exp_items) {
+            let n = exp_items.len();
+            let mut ok = items.len() >= n;
+            if ok {
+                for (a, b) in items.iter().zip(exp_items.iter()) {
+                    if !same_value_or_both_err(a, b) {
+                        ok = false;
+                    }
+                }
+            }
+            // null-like documents are skipped by both sides identically, so positions line up
+            if !ok && exp_items.iter().all(|x| x.is_ok()) {
+                run.violation(
+                    "C02:stream:iterator-items-differ-from-expansion",
+                    case_json(),
+                    format!("iterator: {:?} | expanded: {:?}", items.iter().map(show).collect::<Vec<_>>(), exp_items.iter().map(show).collect::<Vec<_>>()),
+                );
+                return;
+            }
+            if let Some(j) = first_bad
+                && exp_items.iter().all(|x| x.is_ok())
+            {
+                match items.get(n) {
+                    Some(Ok(v)) => {
+                        run.violation(
+                            "C02:stream:alias-to-anchor-of-earlier-document-accepted",
+                            case_json(),
+                            format!("iterator yielded Ok({v}) for document #{j} whose alias has no anchor in that document"),
+                        );
+                        return;
+                    }
+                    Some(Err(_)) => run.count("stream_iter_must_fail", 1),
+                    None => run.inconclusive("iterator ended before the unresolvable document (skipped null documents?)"),
+                }
+            }
+        }
+        run.nontrivial(fnv_parts(&[stream.as_bytes(), b"stream"]));
+        if i % 9973 == 0 {
+            run.sample(|| json!({"stream": stream}));
         }
     });
 
